@@ -5,14 +5,18 @@ Case kinds (each replayable through execute):
   json    mapping set on a parsed feature -> real _jsonify -> real _unjsonify / Feature(attributes=text) and the stdlib
           json reader: same keys in the same order, same values (lone surrogates included)
   merge   real helpers.merge_attributes(a, b, numeric_sort) on dict / Attributes arguments vs the union model
-          (gvmon/models/c17.py); arguments deep-compared before/after
+          (gvmon/models/c17.py); arguments deep-compared before/after; 15% of the cases hold one or both arguments in
+          another dict type (OrderedDict, defaultdict(list), dict subclass with a non-storing __missing__)
   db      features carrying generated mappings -> real create_db / update -> read back through FeatureDB, through a
           reopened FeatureDB, through a FeatureDB opened with a latin-1 decoding text_factory and through plain
           sqlite3 + stdlib json (lone surrogates and astral characters included); the raw column is read as bytes: valid
           JSON decoding to the attributes, ASCII only
   eq      pool of features; every ordered pair: (a == b) == (str(a) == str(b)), a == b => hash equal, != is the negation;
           pools hold near-equal lines (differing only by trailing/leading whitespace-like characters, an empty 10th
-          column, letter case, normalisation form); set/dict of the pool has one member per distinct printed line
+          column, letter case, normalisation form); set/dict of the pool has one member per distinct printed line;
+          small pools of features whose start / end the caller assigned afterwards (spec via=assigned: the text of a
+          line's column, int, int subclass, float, zero-padded text; through the attribute, feature[i], the stop alias)
+          next to parsed / database features of the same and of the neighbouring line
   set     parsed / database feature; values set as scalar, list, tuple through feature[k], attributes[k], update(...),
           setdefault, under both settings of always_return_list; afterwards every stored value is a sequence of str equal
           to what was set; astuple(), _jsonify and the stored values do not depend on the switch; the view differs only
@@ -96,6 +100,11 @@ RULE = ("mappings of 0-6 keys -> 0-4 values over arbitrary Unicode (JSON-structu
         "every set / print / edit base line, 8% of the json cases (mapping parsed from such a line, items set on top), 30% "
         "of the db cases (carried by the parsed line), 15% of the reparse-safe sjson keys and in the korder key pool; every "
         "set case also converts its stored JSON text back with _unjsonify(isattributes=True). "
+        "15% of the merge cases hold the first, the second or both arguments as OrderedDict / defaultdict(list) / dict subclass "
+        "whose __missing__ answers [] without storing; 400 (quick) eq pools of 7-10 features: a line parsed twice, from a "
+        "database, the neighbouring line (start or end +1, or '.'), and features whose start/end were assigned by the caller "
+        "(column text 3/7, int, int subclass, float, zero-padded text; attribute / feature[i] / stop) onto the record, onto "
+        "itself, away from the record. "
         "Non-trivial = the mapping has a scalar-set or subclass-instance value or a non-ASCII/control/escape-worthy character (json, set, "
         "print, db), the arguments share a key (merge), the pool has equal distinct objects (eq), an observation precedes "
         "an edit (edit), always (sjson); distinct by case content")
@@ -178,7 +187,13 @@ REQUIRED = ["alias: re-fetched features compared with the stored text", "alias: 
             "set: parameter-named keys taken through the stored JSON text and back",
             "json: mappings parsed from a line carrying parameter-named keys",
             "json: parameter-named keys taken through the stored JSON text and back",
-            "db: parsed parameter-named keys stored", "db: features carrying parameter-named keys read back (db[id])"]
+            "db: parsed parameter-named keys stored", "db: features carrying parameter-named keys read back (db[id])",
+            "merge: first argument given as defaultdict", "merge: first argument given as lenientdict",
+            "merge: first argument given as ordereddict", "merge: second argument given as defaultdict",
+            "merge: second argument given as lenientdict", "merge: second argument given as ordereddict",
+            "merge: arguments with a __missing__ hook lacking a key of the other argument",
+            "eq: pool features whose start/end were assigned by the caller (column text, int, int subclass, float)",
+            "eq: equal pairs whose coordinates are held as objects of different types (int / text / None)"]
 REQUIRED_CLASSES = ["set origin=line", "set origin=db", "print origin=line", "print origin=db", "merge dict,dict",
                     "merge attrs,attrs", "merge dict,attrs", "merge attrs,dict", "set origin=jsontext", "set origin=jsondb",
                     "db with lone surrogates, file", "db with lone surrogates, memory", "edit origin=line", "edit origin=db", "edit origin=jsontext", "edit origin=jsondb",
@@ -188,7 +203,9 @@ REQUIRED_CLASSES = ["set origin=line", "set origin=db", "print origin=line", "pr
                     "set member-named keys origin=line", "set member-named keys origin=db", "set member-named keys origin=jsontext",
                     "korder line", "korder ctor", "korder db",
                     "set parameter-named keys origin=line", "set parameter-named keys origin=db",
-                    "set parameter-named keys origin=jsontext", "set parameter-named keys origin=jsondb"] + [
+                    "set parameter-named keys origin=jsontext", "set parameter-named keys origin=jsondb",
+                    "eq pool with caller-assigned coordinates", "merge dict-subclass,dict", "merge dict-subclass,attrs",
+                    "merge dict,dict-subclass", "merge attrs,dict-subclass"] + [
                     "key '%s' origin=%s" % (k, o) for k in G.PARSED_PARAM_NAMES for o in ("line", "db", "jsontext")] + [
                     "parsed key '%s' through JSON text" % k for k in G.PARSED_PARAM_NAMES]
 ASSUMPTIONS = [
@@ -218,6 +235,13 @@ ASSUMPTIONS = [
     "asked only for keys whose values all match [+-]digits[.digits][e[+-]digits] and are finite, ties between equal "
     "numbers in any order; keys holding nan/inf/underscore/blank-padded/non-ASCII-digit/overflowing literals are judged "
     "on elements and duplicate-freeness only; keys with a value float() refuses are judged on plain sorted order",
+    "merge_attributes: 'all pairs of mappings' includes the dict types callers hold attribute tables in (OrderedDict, "
+    "defaultdict(list), dict subclasses with a __missing__ hook); the result is judged on keys and values only (its type "
+    "and key order are not), the arguments must show the same keys/values afterwards",
+    "kind eq, caller-assigned coordinates: the statement speaks of printed lines only, so a feature whose start/end holds "
+    "the column's text, an int subclass or a float is judged like any other (== iff the printed lines are equal, whatever "
+    "these print); only start/end are given non-str objects (the other columns are joined as they are when printing); "
+    "records with a '.' coordinate are parsed, not imported",
     "database round trip through the GFF3 importer with unique ids (merge_strategy='error'); keys ID/Parent are fixed",
     "edit: 'describes the edited feature' = agrees with what feature.attributes and the column attributes show at that "
     "time; an in-place operation on the list handed out by attributes[k] (always_return_list=True) may or may not be "
@@ -433,12 +457,38 @@ def build_arg(pairs, typ, shared=False, sub=False):
         new = M.TagList(v) if sub else list(v)
         made.append(new)
         return new
-    if typ == "dict":
-        return {k: value(v) for k, v in pairs}
+    if typ in MAPPING_TYPES:
+        return mapping_of(typ, [(k, value(v)) for k, v in pairs])
     a = Attributes()
     for k, v in pairs:
         a[k] = value(v)
     return a
+
+
+class LenientDict(dict):
+    """dict subclass that answers a missing key with an empty list without storing it (like collections.Counter does
+    with 0)."""
+
+    def __missing__(self, key):
+        return []
+
+
+MAPPING_TYPES = ("dict", "ordereddict", "defaultdict", "lenientdict")
+OTHER_MAPPING_TYPES = MAPPING_TYPES[1:]
+
+
+def mapping_of(typ, items):
+    """The argument as one of the dict types callers hold attribute tables in: plain dict, OrderedDict,
+    defaultdict(list) (the accumulator idiom), a dict subclass with a __missing__ hook."""
+    import collections
+
+    if typ == "dict":
+        return dict(items)
+    if typ == "ordereddict":
+        return collections.OrderedDict(items)
+    if typ == "defaultdict":
+        return collections.defaultdict(list, items)
+    return LenientDict(items)
 
 
 def snapshot(obj):
@@ -464,6 +514,12 @@ def run_merge(ctx, case):
             lists = [id(v) for v in getattr(obj, "_d", obj).values() if isinstance(v, list)]
             if len(lists) != len(set(lists)):
                 ctx.mon("merge: arguments in which two keys share one list object")
+    for which, typ, mine, other in (("first", case["a_type"], a_pairs, b_pairs), ("second", case["b_type"], b_pairs, a_pairs)):
+        if typ in OTHER_MAPPING_TYPES:
+            ctx.mon("merge: calls with an argument given as OrderedDict / defaultdict(list) / dict subclass with __missing__")
+            ctx.mon("merge: %s argument given as %s" % (which, typ))
+            if typ != "ordereddict" and set(k for k, _ in other) - set(k for k, _ in mine):
+                ctx.mon("merge: arguments with a __missing__ hook lacking a key of the other argument")
     # what the arguments hold once built (an Attributes object wraps scalars)
     before = (snapshot(a), snapshot(b))
     try:
@@ -667,10 +723,45 @@ def run_db(ctx, case):
 # ---------------------------------------------------------------------------------
 # kind eq
 # ---------------------------------------------------------------------------------
+class Coord(int):
+    """An int subclass (what numpy-free callers get from their own coordinate types); prints like the int."""
+
+
+COORD_FIELDS = {3: "start", 4: "end"}
+
+
+def coordinate_value(text, form):
+    """The value a caller assigns to a coordinate column: the text of that column as it stands in a line ('10', '.'),
+    or the number as an int / int-subclass / float object."""
+    if form == "text" or not text.isdigit():
+        return text
+    if form == "int":
+        return int(text)
+    if form == "intsub":
+        return Coord(text)
+    if form == "float":
+        return float(int(text))
+    return "0" + text  # "padded": another text for the same number
+
+
 def build_spec(spec, dbs):
     import gffutils
     from gffutils.feature import Feature, feature_from_line
 
+    if spec["via"] == "assigned":
+        # a feature obtained from "from" (line / db) whose coordinate columns the caller then assigns (attribute, feature[i],
+        # stop alias), each with the text / number that stands in column i of the line "take"
+        f = build_spec({"via": spec["from"], "line": spec["line"]}, dbs)
+        cols = spec["take"].split("\t")
+        for st in spec["sets"]:
+            value = coordinate_value(cols[st["field"]], st["as"])
+            if st["via"] == "index":
+                f[st["field"]] = value
+            elif st["via"] == "alias" and st["field"] == 4:
+                f.stop = value
+            else:
+                setattr(f, COORD_FIELDS[st["field"]], value)
+        return f
     if spec["via"] == "line":
         return feature_from_line(spec["line"], keep_order=bool(spec.get("keep_order")))
     if spec["via"] == "db":
@@ -706,6 +797,9 @@ def run_eq(ctx, case):
             ctx.violation(case, {"why": "building a pool feature raised %s" % type(ex).__name__, "exception": repr(ex)})
             contracts.drain()
             return
+        nassigned = sum(1 for sp in case["pool"] if sp["via"] == "assigned")
+        if nassigned:
+            ctx.mon("eq: pool features whose start/end were assigned by the caller (column text, int, int subclass, float)", nassigned)
         with Switch(case.get("switch", True)):
             try:
                 keys = [M.near_keys(str(f)) for f in feats]
@@ -728,6 +822,8 @@ def run_eq(ctx, case):
                     same = sa == sb
                     if same and i != j:
                         ctx.mon("eq: equal pairs of distinct objects")
+                        if type(a.start) is not type(b.start) or type(a.end) is not type(b.end):
+                            ctx.mon("eq: equal pairs whose coordinates are held as objects of different types (int / text / None)")
                         ia, ib = getattr(a, "id", None), getattr(b, "id", None)
                         if ia is not None and ib is not None and ia != ib:
                             ctx.mon("eq: pairs of database features with equal printed lines under different primary keys")
@@ -2043,7 +2139,54 @@ CANONICAL_PRINT = {"kind": "print", "origin": "line", "fmt": "gff3", "base": [["
                    "ops": [{"how": "feature_setitem", "items": [["Note", ["scalar", "scalar"]]], "switch": True}]}
 
 
+def assigned_pool(rng):
+    """Small pool around one record: the line parsed twice and read from a database, the neighbouring line (start or end
+    moved by one), and 3-6 features whose start / end the CALLER assigned afterwards - with the text of the column of the
+    same line (f.start = fields[3]), of the neighbouring line (either direction: onto the record, away from it), as int,
+    int-subclass, float or zero-padded text; 30% of the pools are about a record whose start or end is '.' (None)."""
+    seqid = rng.choice(["chr1", "chr2L", "ctg.7-b"])
+    start = rng.randrange(1, 5000)
+    end = start + rng.randrange(0, 900)
+    attrs = [["ID", [G.simple_value(rng)]], ["tag", [G.simple_value(rng) for _ in range(rng.randrange(1, 3))]]]
+    cols = [seqid, "src", rng.choice(["gene", "exon"]), str(start), str(end), ".", rng.choice(["+", "-"]), "."]
+    which = rng.choice([3, 4])
+    other = list(cols)
+    if rng.random() < 0.3:
+        other[which] = "."
+    else:
+        other[which] = str(int(cols[which]) + 1)
+        if which == 3 and int(other[3]) > end:
+            other[4] = other[3]
+    line, near = G.gff3_line(cols, attrs), G.gff3_line(other, attrs)
+    if rng.random() < 0.5:
+        line, near = near, line
+    # records with an undefined coordinate are parsed only (importing them is not this property's business)
+    dotted = lambda text: "." in text.split("\t")[3:5]
+    origin = lambda text: "line" if dotted(text) else rng.choice(["line", "line", "db"])
+    specs = [{"via": "line", "line": line}, {"via": "line", "line": line}, {"via": origin(line), "line": line}, {"via": "line", "line": near}]
+    forms = ["text", "text", "text", "int", "intsub", "float", "padded"]
+    vias = ["attr", "index", "alias"]
+    # onto the record: a feature of the neighbouring line given the record's coordinates
+    for _ in range(rng.randrange(1, 3)):
+        specs.append({"via": "assigned", "from": origin(near), "line": near, "take": line,
+                      "sets": [{"field": fld, "via": rng.choice(vias), "as": rng.choice(forms)} for fld in (3, 4)
+                               if fld == which or (which == 3 and fld == 4) or rng.random() < 0.3]})
+    # the record's own coordinates assigned again
+    for _ in range(rng.randrange(1, 3)):
+        flds = rng.choice([[3], [4], [3, 4]])
+        specs.append({"via": "assigned", "from": origin(line), "line": line, "take": line,
+                      "sets": [{"field": fld, "via": rng.choice(vias), "as": rng.choice(forms)} for fld in flds]})
+    # away from the record: onto the neighbouring line
+    for _ in range(rng.randrange(1, 3)):
+        specs.append({"via": "assigned", "from": "line", "line": line, "take": near,
+                      "sets": [{"field": fld, "via": rng.choice(vias), "as": rng.choice(forms)} for fld in (3, 4)
+                               if fld == which or (which == 3 and fld == 4) or rng.random() < 0.3]})
+    rng.shuffle(specs)
+    return specs
+
+
 def merge_phase(ctx, rng, n, switch):
+    fold = lambda typ: "dict-subclass" if typ in OTHER_MAPPING_TYPES else typ
     for _ in range(n):
         a, b, pools = G.merge_args(rng)
         case = {"kind": "merge", "a": a, "b": b, "a_type": rng.choice(["dict", "attrs"]), "b_type": rng.choice(["dict", "attrs"]),
@@ -2059,10 +2202,14 @@ def merge_phase(ctx, rng, n, switch):
                 case[which + "_shared"] = True
         if rng.random() < 0.15:
             case[rng.choice(["a", "b"]) + "_sub"] = True
+        if rng.random() < 0.15:
+            # the argument held in another dict type (OrderedDict, defaultdict(list) accumulator, dict subclass with __missing__)
+            for which in rng.choice([["a"], ["a"], ["b"], ["a", "b"]]):
+                case[which + "_type"] = rng.choice(OTHER_MAPPING_TYPES)
         execute(ctx, case)
         shared = set(k for k, _ in a) & set(k for k, _ in b)
         ctx.case(case, bool(shared), sample=case if switch else None,
-                 cls="merge %s,%s%s" % (case["a_type"], case["b_type"], "" if switch else " (always_return_list=False)"))
+                 cls="merge %s,%s%s" % (fold(case["a_type"]), fold(case["b_type"]), "" if switch else " (always_return_list=False)"))
         ctx.classes["merge numeric_sort=%s" % case["numeric_sort"]] += 1
 
 
@@ -2124,6 +2271,11 @@ def run(ctx):
         case = {"kind": "eq", "pool": G.pool(rng), "switch": rng.random() < 0.8}
         execute(ctx, case)
         ctx.case(case, True, cls="eq pool")
+    # 4a. features whose coordinate columns the caller assigned (text of a column, int, int subclass, float)
+    for _ in range(ctx.budget(400, 9600)):
+        case = {"kind": "eq", "pool": assigned_pool(rng), "switch": rng.random() < 0.8}
+        execute(ctx, case)
+        ctx.case(case, True, sample=case if rng.random() < 0.05 else None, cls="eq pool with caller-assigned coordinates")
     # 4b. aliasing between decodes of one stored text; equality under a shared dialect object
     for _ in range(ctx.budget(300, 9600)):
         n = rng.randrange(1, 5)
